@@ -42,6 +42,8 @@ impl Header {
     }
 
     pub fn update_stamp(&mut self, stamp: Stamp) {
+        #[cfg(anydb_verif)]
+        crate::verif_locks::tap("header", &self.inner, true);
         let mut inner = self.inner.write();
         if inner.stamp != stamp {
             self.modified = true;
@@ -50,6 +52,8 @@ impl Header {
     }
 
     pub fn update_computed_version(&mut self, computed_version: Version) {
+        #[cfg(anydb_verif)]
+        crate::verif_locks::tap("header", &self.inner, true);
         let mut inner = self.inner.write();
         if inner.computed_version != computed_version {
             self.modified = true;
@@ -64,20 +68,28 @@ impl Header {
 
     #[inline(always)]
     pub fn vec_version(&self) -> Version {
+        #[cfg(anydb_verif)]
+        crate::verif_locks::tap("header", &self.inner, false);
         self.inner.read().vec_version
     }
 
     #[inline(always)]
     pub fn computed_version(&self) -> Version {
+        #[cfg(anydb_verif)]
+        crate::verif_locks::tap("header", &self.inner, false);
         self.inner.read().computed_version
     }
 
     #[inline(always)]
     pub fn stamp(&self) -> Stamp {
+        #[cfg(anydb_verif)]
+        crate::verif_locks::tap("header", &self.inner, false);
         self.inner.read().stamp
     }
 
     pub fn write(&mut self, region: &Region) -> Result<()> {
+        #[cfg(anydb_verif)]
+        crate::verif_locks::tap("header", &self.inner, false);
         self.inner.read().write(region)?;
         self.modified = false;
         Ok(())
